@@ -1067,7 +1067,7 @@ func (db *DatabaseCollectionWithUser) getAvailableRevAttachments(ctx context.Con
 }
 
 // Moves a revision's ancestor's body out of the document object and into a separate db doc.
-func (db *DatabaseCollectionWithUser) backupAncestorRevs(ctx context.Context, doc *Document, newDocRevID string, ch base.Set) {
+func (db *DatabaseCollectionWithUser) backupAncestorRevs(ctx context.Context, doc *Document, newDocRevID string, prevCurrentRev string, ch base.Set) {
 
 	// Find an ancestor that still has JSON in the document:
 	var json []byte
@@ -1085,6 +1085,11 @@ func (db *DatabaseCollectionWithUser) backupAncestorRevs(ctx context.Context, do
 	revInfo, ok := doc.History[ancestorRevId]
 	if !ok {
 		return
+	}
+	if ancestorRevId != prevCurrentRev {
+		// ch holds the channels of the previous current revision. An ancestor on a non-winning branch
+		// keeps its own channels in the revision tree - don't stamp it with the winner's.
+		ch = revInfo.Channels
 	}
 	db.backupRevisionJSON(ctx, doc.ID, ancestorRevId, json, ch, revInfo.Deleted)
 
@@ -2786,7 +2791,7 @@ func (col *DatabaseCollectionWithUser) documentUpdateFunc(
 		}
 	}
 
-	col.backupAncestorRevs(ctx, doc, newDoc.RevID, oldChannels)
+	col.backupAncestorRevs(ctx, doc, newDoc.RevID, prevCurrentRev, oldChannels)
 
 	unusedSequences, err = col.assignSequence(ctx, previousDocSequenceIn, doc, unusedSequences)
 	if err != nil {
